@@ -340,6 +340,15 @@ func workerMain() {
 			rl := getRun(j.RunFile)
 			img := imageAt(w.setup.Base, rl.Ops, j.Cut, j.Tear)
 			res, _ := w.evaluate(img, requiredAt(rl.Ops, j.Cut), evalOpts{Mode: j.Mode, ContTo: j.ContTo, Light: j.Light})
+			if hasStall(res) {
+				// "the writer never finishes" is decided by the gate's real-time cap: it counts only
+				// if it happens again on a fresh copy of the image
+				again, _ := w.evaluate(img, requiredAt(rl.Ops, j.Cut), evalOpts{Mode: j.Mode, ContTo: j.ContTo, Light: j.Light})
+				if !hasStall(again) {
+					again.StallsNotReproduced = 1
+					res = again
+				}
+			}
 			return Reply{Eval: res}
 		case "d2":
 			rl := getRun(j.RunFile)
@@ -348,6 +357,15 @@ func workerMain() {
 		}
 		return Reply{Err: "bad job kind " + j.Kind}
 	})
+}
+
+func hasStall(r *EvalResult) bool {
+	for _, p := range r.Problems {
+		if strings.HasPrefix(p.Class, "writer-does-not-finish") {
+			return true
+		}
+	}
+	return false
 }
 
 func requiredAt(ops []vfs.Op, cut int) int {
@@ -711,6 +729,7 @@ func coordinator() {
 			r.Add("instances_abandoned", 1)
 		}
 		r.Add("gate_idle_by_timeout", int64(res.Timeouts))
+		r.Add("writer_stalls_not_reproduced_on_a_second_evaluation", int64(res.StallsNotReproduced))
 		if res.Stable >= 0 {
 			r.Add(fmt.Sprintf("recovered_to_stable_height:%d", res.Stable), 1)
 			switch {
@@ -970,7 +989,14 @@ func probe() {
 	if v := os.Getenv("C08_STEPS"); v != "" {
 		steps = v
 	}
-	rl := w.runHistory(History{"probe", strings.Fields(steps)}, Sched{}, 1)
+	var sched Sched
+	if v := os.Getenv("C08_SCHED"); v != "" {
+		var wd Window
+		fmt.Sscanf(v, "%d-%d:%d", &wd.From, &wd.To, &wd.Perm)
+		sched.Windows = []Window{wd}
+	}
+	rl := w.runHistory(History{"probe", strings.Fields(steps)}, sched, 1)
+	fmt.Println("steps at", rl.StepFg, "failure", rl.Failure)
 	fmt.Println("ops", len(rl.Ops), "fg", rl.FgPoints, "forced", rl.ForcedMoves, "free", rl.FreeMoves, "timeouts", rl.Timeouts, "lockBG", rl.LockWaitsBG, "lockFG", rl.LockWaitsFG, rl.Broken, "digest", logDigest(rl.Ops))
 	for i := range rl.Ops {
 		op := &rl.Ops[i]
